@@ -20,7 +20,7 @@ CLAIM = dict(
          "EXACTLY the Voronoi cell (and witness_check_sound/witness_refutes_cell for the failing direction). Every run: the real NewVoronoiGrid/OldVoronoiGrid are "
          "built (serial and threaded) on corpus + random generator sets (lattices, perturbed lattices, clustered, coplanar, cospherical, near walls, non-cubic/offset "
          "boxes); for every cell of NewVoronoiGrid the reported neighbour list is certified exactly in the class's own internal integer-mantissa coordinates, every "
-         "get_index lookup is checked exactly, facet symmetry is decided by the extracted neighbour_symmetric_check on exact facet flags.",
+         "get_index lookup is checked exactly, facet symmetry is decided by the extracted neighbour_symmetric_check on exact facet flags. The old grid's volume SUM is bounded from its plane tolerance on every set where that bound is informative; the quick tier includes a 900-generator set.",
     note="THEOREM-BACKED verdicts: (a) neighbour structure = Voronoi cell of the internal positions (check_cell; cells of exactly degenerate sets on which the class "
          "misses a face of relative size <= 2^-40 are certified by check_cell_eps with that eps and counted separately; observed excess 1e-26), (b) lookups nearest "
          "(exact; a documented 2^-49/2^-47 slack class for ties within rounding of the float search). ORACLE/VALIDATION only (tolerances, no theorem): volumes>0 and sum to the box volume, "
